@@ -59,6 +59,7 @@ func canonNames(l *gen.LSXG) map[string]bool {
 func TestPolicy(t *testing.T) {
 	rapid.Check(t, func(t *rapid.T) {
 		core.Run(t, "sxg/policy", func(c *core.Ctx) {
+			defer c.LocalZone("process")()
 			l := gen.DrawSXG(c, "sxg", 1)
 			u, _ := url.Parse(l.URL)
 			p := refsxg.Policy{Version: l.Version, URLScheme: u.Scheme, URLHost: u.Host, ValidityScheme: u.Scheme, ValidityHost: u.Host,
@@ -72,9 +73,10 @@ func TestPolicy(t *testing.T) {
 			integrityEdit := ""
 			overflowEdit, overflowK := "", 0
 			twoSignatures := false
+			manyHeaders := false
 			nvar := c.Int("nvariations", 0, 3)
 			for i := 0; i < nvar; i++ {
-				kind := c.PickStr("variation", "validity", "lifetime", "integrity", "foreign-integrity", "number-overflow", "two-signatures", "method", "req-header", "resp-header", "content-type", "cache-control", "expires-header", "status")
+				kind := c.PickStr("variation", "validity", "lifetime", "integrity", "foreign-integrity", "number-overflow", "two-signatures", "many-headers", "method", "req-header", "resp-header", "content-type", "cache-control", "expires-header", "status")
 				kinds = append(kinds, kind)
 				switch kind {
 				case "validity":
@@ -97,7 +99,11 @@ func TestPolicy(t *testing.T) {
 					l.ValidityURL = fmt.Sprintf("%s://%s/other/validity?x=%d", scheme, host, i)
 					p.ValidityScheme, p.ValidityHost = scheme, host
 				case "lifetime":
-					l.Expires = l.Date + c.PickI64("lifetime", 604799, 604800, 604801, 604800*2, 0, 9300000000, 1<<40, 1<<62, 1<<32, 1<<31)
+					if c.Chance("lifetime.acrossDST", 1, 3) {
+						// the 7 days span a daylight-saving transition of a zone the process may run in
+						l.Date = core.DSTTransitions[c.Pick("lifetime.transition", len(core.DSTTransitions))] - c.I64("lifetime.before", 0, 604800)
+					}
+					l.Expires = l.Date + c.PickI64("lifetime", 604799, 604800, 604801, 604800*2, 0, 9300000000, 1<<40, 1<<62, 1<<32, 1<<31, 601200, 608400)
 					if l.Expires-l.Date == 604800 {
 						c.Probe("lifetime == 604800")
 					}
@@ -121,6 +127,15 @@ func TestPolicy(t *testing.T) {
 						}
 						p.Integrity = integrityEdit
 						c.Probe("other version's integrity scheme used consistently")
+					}
+				case "many-headers":
+					// a response with 20-40 distinct (harmless) header fields
+					if !manyHeaders {
+						manyHeaders = true
+						for j, n := 0, c.Int("manyHeaders.n", 17, 40); j < n; j++ {
+							l.RespHeaders = append(l.RespHeaders, gen.HV{Name: fmt.Sprintf("X-Pad-%d", j), Value: "p"})
+						}
+						c.Probe("response with many header fields")
 					}
 				case "two-signatures":
 					// the Signature header lists the same valid signature twice: each is subject
@@ -192,7 +207,9 @@ func TestPolicy(t *testing.T) {
 					dirs := []string{"no-store", "private", "max-age=60", "s-maxage=10", "public", "no-cache", "must-revalidate", "No-Store", "PRIVATE", "Max-Age=5", "no-storex", "xprivate", "immutable",
 						// extension directives with quoted-string arguments (no comma inside: the repository's
 						// parser documents that as unsupported), including quoted pairs
-						`ext="a\"b"`, `ext="q"`, `community="U\\C\"I"`, `no-cache="set-cookie"`, `x="no-store"`, `private="x-hdr"`, `max-age="60"`}
+						`ext="a\"b"`, `ext="q"`, `community="U\\C\"I"`, `no-cache="set-cookie"`, `x="no-store"`, `private="x-hdr"`, `max-age="60"`,
+						// bytes whose case mapping changes their length (invalid UTF-8, U+023A, U+0130)
+						"\xff", "\u023a=1", "\u0130", "x=\xff\xfe"}
 					n := c.Int("cc.n", 1, 3)
 					var parts []string
 					for j := 0; j < n; j++ {
